@@ -237,10 +237,10 @@ class _Fresh:
     def check(self, timeout_ms=None):
         s = z3.Solver()
         t = int(timeout_ms or self.timeout_ms)
-        # deterministic resource limit decides (same verdict under any machine load); the wall-clock
-        # timeout is only a generous backstop
+        # wall-clock timeout plus a resource cap (probe: z3's rlimit does not bound nlsat work
+        # tightly enough to replace the timeout: a 1M-unit cap still ran > 60 s)
         s.set("rlimit", t * RLIMIT_PER_MS)
-        s.set("timeout", t * 6)
+        s.set("timeout", t)
         for c in self.base:
             s.add(c)
         for lvl in self.extra:
